@@ -26,11 +26,13 @@ import (
 	"com.tuntun.rangers/node/src/executor"
 	"com.tuntun.rangers/node/src/middleware/types"
 	"com.tuntun.rangers/node/src/service"
+	"com.tuntun.rangers/node/src/utility"
 
 	"verif/harness/hx"
 )
 
 const (
+	idAlt   = 61 // a second contract with different code (contract transactions only)
 	idMain  = 60 // the main-node contract
 	idSrc0  = 70 // sources 70..75 (one per transaction position; 74, 75 are miner accounts for the node txs)
 	idBlkNw = 80 // addresses created by the block's transactions: 80, 81, ...
@@ -56,8 +58,20 @@ func blkAddr(id int) common.Address {
 }
 
 type blkTx struct {
-	Kind string // contract ethtx node miner transfer
-	Src  int
+	Kind   string // contract ethtx node miner transfer
+	Src    int
+	Target int // contract / ethtx: idMain or idAlt
+}
+
+// the chain context handed to the loop: BLOCKHASH(990) in a contract moves the node clock 4 s ahead (the proposer's
+// casting budget is 3 s)
+type clockChain struct{ stubChain }
+
+func (clockChain) GetBlockHash(h uint64) common.Hash {
+	if h == 990 {
+		utility.VerifAdvanceClock(4 * time.Second)
+	}
+	return common.Hash{}
 }
 
 var blkKinds = []string{"contract", "ethtx", "node", "miner", "transfer"}
@@ -92,6 +106,8 @@ func compileBlk(t *table, id int, asInit bool) []byte {
 			a.push(x.K).push(32).push(0).op(opLOG1)
 		case "logt":
 			a.push(x.K).op(0x5c).push(32).push(0).op(opLOG1) // TLOAD
+		case "bump":
+			a.push(990).op(opBLOCKHASH, opPOP)
 		case "create":
 			init := compileBlk(t, x.Init, true)
 			a.mem(64, init)
@@ -126,6 +142,8 @@ func buildBlkWorld(t *table, pMain int) *blkWorld {
 	m := blkAddr(idMain)
 	adb.SetNonce(m, 1)
 	adb.SetCode(m, compileBlk(t, pMain, false))
+	adb.SetNonce(blkAddr(idAlt), 1)
+	adb.SetCode(blkAddr(idAlt), compileBlk(t, pMain+1, false))
 	for i := 0; i < 6; i++ {
 		adb.SetBalance(addrOf(idSrc0+i), new(big.Int).Mul(big.NewInt(1000), unit18))
 	}
@@ -150,7 +168,7 @@ func mkBlkTx(k blkTx) *types.Transaction {
 		if k.Kind == "ethtx" {
 			t.Type = types.TransactionTypeETHTX
 		}
-		t.Target = blkAddr(idMain).GetHexString()
+		t.Target = blkAddr(k.Target).GetHexString()
 		d, _ := json.Marshal(types.ContractData{GasLimit: "20000000", TransferValue: "0", AbiData: "0x00"})
 		t.Data = string(d)
 	case "node":
@@ -166,27 +184,68 @@ func mkBlkTx(k blkTx) *types.Transaction {
 	return t
 }
 
-func runPrefix(bw *blkWorld, txs []*types.Transaction) []*types.Receipt {
+func runPrefix(bw *blkWorld, txs []*types.Transaction, situation string) []*types.Receipt {
 	common.SetBlockHeight(runHeight)
+	utility.VerifResetClock()
+	defer utility.VerifResetClock()
 	hd := &types.BlockHeader{Height: runHeight, CurTime: time.Unix(1700000000, 0), Castor: []byte{0xca, 0x57}}
 	b := &types.Block{Header: hd, Transactions: append([]*types.Transaction{}, txs...)}
-	_, rs, _ := core.VerifC06ExecuteBlockCtx(bw.w.adb, b, "testing")
+	_, _, _, rs := core.VerifC01ExecuteBlockWithChain(bw.w.adb, b, situation, clockChain{})
 	return rs
 }
 
-func runBlockCase(kinds []blkTx, create bool, fin string, name string, res *hx.Result, cs *hx.Cases) {
+func runBlockCase(kinds []blkTx, create bool, fin string, name string, situation string, bump bool, res *hx.Result, cs *hx.Cases) {
 	bootBlock()
 	t := &table{}
 	t.progs = append(t.progs, Prog{Acts: []Action{{Op: "sstore", K: 1, V: 1}}, Fin: "stop"}) // 1: creation code (empty runtime)
 	t.progs = append(t.progs, mainProg(create, fin, 1))                                         // 2: M
+	alt := Prog{Acts: []Action{{Op: "logt", K: 1}, {Op: "tstore", K: 1, V: 5}, {Op: "sstore", K: 2, V: 4}, {Op: "log", K: 3}}, Fin: "stop"}
+	if bump {
+		alt.Acts = append(alt.Acts, Action{Op: "bump"})
+	}
+	t.progs = append(t.progs, alt) // 3: the second contract
 	const pMain = 2
 	txs := []*types.Transaction{}
 	for _, k := range kinds {
 		txs = append(txs, mkBlkTx(k))
 	}
 	m := blkAddr(idMain)
-	in := map[string]interface{}{"block": name, "kinds": kinds, "main_contract_program": t.progs[1].String()}
-	addrID := map[common.Address]int{m: idMain}
+	in := map[string]interface{}{"block": name, "situation": situation, "kinds": kinds, "main_contract_program": t.progs[1].String(), "second_contract_program": alt.String()}
+	addrID := map[common.Address]int{m: idMain, blkAddr(idAlt): idAlt}
+	// the whole block once: which transactions the loop executed (a proposer's loop stops when its time is up)
+	{
+		bw := buildBlkWorld(t, pMain)
+		var rc []*types.Receipt
+		panicked := ""
+		func() {
+			defer func() {
+				if p := recover(); p != nil {
+					panicked = fmt.Sprint(p)
+				}
+			}()
+			rc = runPrefix(bw, txs, situation)
+		}()
+		if panicked != "" {
+			res.Violate("C12/block:panic", panicked, in)
+			return
+		}
+		n := 0
+		for n < len(txs) && n < len(rc) && rc[n].TxHash == txs[n].Hash {
+			n++
+		}
+		if n != len(rc) {
+			res.Violate("C12/block:receipt-order", fmt.Sprintf("the receipts are not those of a prefix of the block in order (%d receipts, %d match)", len(rc), n), in)
+			return
+		}
+		if n < len(txs) {
+			if situation != "casting" || !bump {
+				res.Violate("C12/block:no-receipt", fmt.Sprintf("only %d of %d transactions have a receipt", n, len(txs)), in)
+				return
+			}
+			res.Count("block|cut-by-the-casting-clock", name, true)
+		}
+		txs, kinds = txs[:n], kinds[:n]
+	}
 	hashID := map[common.Hash]int{}
 	for i, tx := range txs {
 		hashID[tx.Hash] = i + 1
@@ -204,7 +263,7 @@ func runBlockCase(kinds []blkTx, create bool, fin string, name string, res *hx.R
 					panicked = fmt.Sprint(p)
 				}
 			}()
-			rc = runPrefix(bw, txs[:i+1])
+			rc = runPrefix(bw, txs[:i+1], situation)
 		}()
 		if panicked != "" {
 			res.Violate("C12/block:panic", panicked, in)
@@ -234,7 +293,7 @@ func runBlockCase(kinds []blkTx, create bool, fin string, name string, res *hx.R
 			evmRan[i] = evmOK[i] || fin == "revert"
 		}
 		n := worlds[i].w.adb.GetNonce(m)
-		if evmRan[i] && create {
+		if evmRan[i] && create && kinds[i].Target != idAlt {
 			created[i] = crypto.CreateAddress(m, nonceM)
 			if _, ok := addrID[created[i]]; !ok {
 				addrID[created[i]] = idBlkNw + len(addrID)
@@ -260,19 +319,23 @@ func runBlockCase(kinds []blkTx, create bool, fin string, name string, res *hx.R
 			}
 		}
 		emitted := 0
+		tgt := m
 		if evmOK[i] {
 			emitted = 4
+			if kinds[i].Target == idAlt {
+				emitted, tgt = 2, blkAddr(idAlt)
+			}
 		}
 		own := adb.GetLogs(txs[i].Hash)
 		if len(my.Logs) != emitted || len(own) != emitted {
 			res.Violate("C12/receipt-logs:misfiled:"+kind, fmt.Sprintf("transaction %d (%s) emitted %d logs; its receipt carries %d, GetLogs(its hash) %d (receipt message: %.60s)", i, kind, emitted, len(my.Logs), len(own), my.Msg), in)
 		}
 		for _, l := range own {
-			if l.TxHash != txs[i].Hash || l.Address != m {
+			if l.TxHash != txs[i].Hash || l.Address != tgt {
 				res.Violate("C12/receipt-logs:misfiled:"+kind, fmt.Sprintf("a log of transaction %d is filed with hash %s / address %s", i, l.TxHash.Hex(), l.Address.GetHexString()), in)
 			}
 		}
-		if emitted == 4 && len(own) == 4 && (len(own[0].Topics) != 1 || wordU(own[0].Topics[0]) != 0) {
+		if emitted > 0 && len(own) == emitted && (len(own[0].Topics) != 1 || wordU(own[0].Topics[0]) != 0) {
 			res.Violate("C12/tx-scratch:not-fresh:"+kind, fmt.Sprintf("transaction %d (%s) found TLOAD(1) = %s at its start: transient storage written by an earlier transaction of the block", i, kind, own[0].Topics[0].Hex()), in)
 		}
 		for j := 0; j < i; j++ {
@@ -283,6 +346,9 @@ func runBlockCase(kinds []blkTx, create bool, fin string, name string, res *hx.R
 			if created[j] != (common.Address{}) && adb.AddressInAccessList(created[j]) {
 				res.Violate("C12/tx-scratch:not-fresh:"+kind, fmt.Sprintf("after transaction %d (%s) the access list still holds the address created by transaction %d (%s): the list was not reset for it", i, kind, j, kinds[j].Kind), in)
 			}
+		}
+		if kinds[i].Target != idAlt && wordU(adb.GetTransientState(blkAddr(idAlt), keyOf(1))) != 0 {
+			res.Violate("C12/tx-scratch:not-fresh:"+kind, fmt.Sprintf("after transaction %d (%s) the transient storage of the other contract, written by an earlier transaction, is still there", i, kind), in)
 		}
 		if !evmOK[i] && wordU(adb.GetTransientState(m, keyOf(1))) != 0 {
 			res.Violate("C12/tx-scratch:not-fresh:"+kind, fmt.Sprintf("after transaction %d (%s, no surviving EVM write) the transient storage of an earlier transaction is still there (slot 1 = %d)", i, kind, wordU(adb.GetTransientState(m, keyOf(1)))), in)
@@ -299,8 +365,12 @@ func runBlockCase(kinds []blkTx, create bool, fin string, name string, res *hx.R
 	if cs == nil {
 		return
 	}
-	progs := []string{coqProg(t.progs[0]), coqProg(t.progs[1])}
-	init := fmt.Sprintf("[ia %d true 1 %d 0 []]", idMain, pMain)
+	altModel := alt
+	if bump {
+		altModel.Acts = alt.Acts[:len(alt.Acts)-1] // the clock bump (a BLOCKHASH) has no effect on the state
+	}
+	progs := []string{coqProg(t.progs[0]), coqProg(t.progs[1]), coqProg(altModel)}
+	init := fmt.Sprintf("[ia %d true 1 %d 0 []; ia %d true 1 %d 0 []]", idMain, pMain, idAlt, pMain+1)
 	addrs, hashes := []uint64{}, []uint64{}
 	for _, id := range aids {
 		addrs = append(addrs, uint64(id))
@@ -316,8 +386,12 @@ func runBlockCase(kinds []blkTx, create bool, fin string, name string, res *hx.R
 		// the model runs the EVM exactly when the real transaction did (the loop's admission checks - fee, balance,
 		// miner record - are outside the frame model)
 		if evmRan[i] {
-			kind = fmt.Sprintf("TCall %d 0", idMain)
-			if create {
+			tg := idMain
+			if kinds[i].Target == idAlt {
+				tg = idAlt
+			}
+			kind = fmt.Sprintf("TCall %d 0", tg)
+			if create && tg == idMain {
 				orc = []uint64{0, uint64(addrID[created[i]]), 0}
 			}
 		}
@@ -366,16 +440,35 @@ func blockCases(res *hx.Result, out string) int {
 		}
 		return idSrc0 + pos
 	}
-	run := func(ks []string, create bool, fin string) {
+	variant := 0
+	runX := func(ks []string, create bool, fin string, situation string, bump bool, altMask int) {
 		nodes := 0
 		bt := []blkTx{}
 		for i, k := range ks {
-			bt = append(bt, blkTx{Kind: k, Src: src(k, i, &nodes)})
+			tg := idMain
+			if (k == "contract" || k == "ethtx") && altMask&(1<<uint(i)) != 0 {
+				tg = idAlt
+			}
+			bt = append(bt, blkTx{Kind: k, Src: src(k, i, &nodes), Target: tg})
 		}
 		if nodes > 2 {
 			return
 		}
-		runBlockCase(bt, create, fin, fmt.Sprintf("%s|create=%v|%s", strings.Join(ks, ","), create, fin), res, cs)
+		runBlockCase(bt, create, fin, fmt.Sprintf("%s|%s|create=%v|%s|alt=%d|bump=%v", situation, strings.Join(ks, ","), create, fin, altMask, bump), situation, bump, res, cs)
+	}
+	// several contract codes per block: the contract / wrapped-eth transactions alternate between the two contracts
+	run := func(ks []string, create bool, fin string) {
+		variant++
+		runX(ks, create, fin, "testing", false, []int{0, 1, 2, 3, 5}[variant%5])
+	}
+	// the proposer's loop (situation "casting": no sorting, after() runs, 3 s budget): with and without the clock
+	// running out after the first / second transaction
+	for _, ks := range [][]string{{"contract", "node", "contract"}, {"contract", "contract", "node"}, {"ethtx", "contract", "transfer", "node"},
+		{"node", "contract", "node"}, {"contract", "miner", "ethtx", "contract"}, {"contract", "ethtx", "node", "contract"}} {
+		for _, mask := range []int{0, 1, 2, 3} {
+			runX(ks, true, "stop", "casting", false, mask)
+			runX(ks, true, "stop", "casting", true, mask)
+		}
 	}
 	for _, a := range blkKinds {
 		for _, b := range blkKinds {
